@@ -39,3 +39,10 @@ func OnNEP11Payment(from interop.Hash160, amount int, token []byte, data any) {
 	// turn it into a Buffer, which NNS would store as the owner as it is
 	contract.Call(nns, "transfer", contract.All, b, token, nil)
 }
+
+// KeepAgain transfers a name the registrar owns to the registrar itself, naming itself by a freshly built byte
+// slice (a Buffer, as any address computed inside a contract is) rather than by the stored ByteString.
+func KeepAgain(nns interop.Hash160, name string) bool {
+	me := append([]byte{}, runtime.GetExecutingScriptHash()...)
+	return contract.Call(nns, "transfer", contract.All, me, name, nil).(bool)
+}
